@@ -494,6 +494,7 @@ type SpecFunc struct {
 	Text   string
 	File   string
 	Line   int
+	PkgPath string
 }
 
 type ContractSet struct {
@@ -663,7 +664,7 @@ func (cs *ContractSet) LoadContractFile(path, pkgPath string) error {
 			if m == nil {
 				return fmt.Errorf("%s:%d: cannot parse spec function %q", path, l.no, t)
 			}
-			sf := &SpecFunc{Name: m[2], Result: m[4], Rec: m[1] == "rec", Text: m[5], File: path, Line: l.no}
+			sf := &SpecFunc{Name: m[2], Result: m[4], Rec: m[1] == "rec", Text: m[5], File: path, Line: l.no, PkgPath: pkgPath}
 			if strings.TrimSpace(m[3]) != "" {
 				for _, p := range strings.Split(m[3], ",") {
 					fs := strings.Fields(p)
